@@ -447,8 +447,11 @@ def run(prop, tier, seed, replay=None):
     if hasattr(prop, "extra_evidence"):
         ev["coverage"].update(prop.extra_evidence(cases, impl_out, model_out))
     if replay is None:
-        os.makedirs(os.path.join(VERIF, "evidence"), exist_ok=True)
-        with open(os.path.join(VERIF, "evidence", pid + ".json"), "w") as f:
+        # VERIF_EVIDENCE_DIR is set by tools/run_seeded.py so that runs against a
+        # deliberately broken /repo never overwrite the evidence of the real tree
+        evdir = os.environ.get("VERIF_EVIDENCE_DIR") or os.path.join(VERIF, "evidence")
+        os.makedirs(evdir, exist_ok=True)
+        with open(os.path.join(evdir, pid + ".json"), "w") as f:
             json.dump(ev, f, indent=1, default=str)
 
     for l in sorted(set(known_lines)):
